@@ -32,8 +32,23 @@ func MakeFromRequest(r *http.Request) CacheKey {
 		scheme = "https"
 	}
 	normHost := strings.ToLower(r.Host)
-	normPath := path.Clean(r.URL.Path)
-	stringKey := fmt.Sprintf("%s|%s|%s|%s|%s", scheme, r.Method, normHost, normPath, r.URL.RawQuery)
+
+	// Normalize the path in its escaped form, so that an encoded slash (%2F) stays distinct from a
+	// path separator. path.Clean drops a trailing slash, but "/dir/" and "/dir" are different
+	// resources, so it is put back (a trailing "." or ".." segment also denotes a directory).
+	escapedPath := r.URL.RawPath // the path exactly as received, when it is not in canonical escaped form
+	if escapedPath == "" {
+		escapedPath = r.URL.EscapedPath()
+	}
+	normPath := path.Clean(escapedPath)
+	endsInDir := strings.HasSuffix(escapedPath, "/") || strings.HasSuffix(escapedPath, "/.") || strings.HasSuffix(escapedPath, "/..")
+	if endsInDir && normPath != "/" {
+		normPath += "/"
+	}
+
+	// Every component before the query carries its length, so that no character (such as the '|'
+	// separator itself) can move across a component boundary and produce the same key string.
+	stringKey := fmt.Sprintf("%s|%d:%s|%d:%s|%d:%s|%s", scheme, len(r.Method), r.Method, len(normHost), normHost, len(normPath), normPath, r.URL.RawQuery)
 	slog.Debug("Creating cache key", "key", stringKey)
 	return FromString(stringKey)
 }
